@@ -20,8 +20,12 @@ abbrev Byte := Nat
 inductive Resp where
   | netErr                 -- connection closed before any response
   | status (code : Nat)    -- a response with a status other than 200
-  | cut (k : Nat)          -- 200, `k` body bytes, then the connection is dropped
-  | full                   -- 200 and the whole blob
+  | cut (k : Nat) (chunked : Bool)   -- 200, `k` body bytes, then the connection is dropped
+  | full (chunked : Bool)            -- 200 and the whole blob
+  -- `chunked = false`: the response announces Content-Length = blob length, so a drop after all
+  -- the bytes is a complete response; `chunked = true`: no Content-Length (chunked encoding, as a
+  -- streaming origin answers), a drop is always before the terminating chunk and is an error
+  -- even when every body byte arrived.
   deriving Repr, DecidableEq
 
 inductive DstKind where
@@ -54,16 +58,17 @@ inductive Out where
 
 /-- does the response carry the whole blob -/
 def Resp.delivers (blobLen : Nat) : Resp → Bool
-  | .full => true
-  | .cut k => blobLen ≤ k
+  | .full _ => true
+  | .cut k false => blobLen ≤ k
   | _ => false
 
 /-- `HTTPClient.DownloadBlob`: destination afterwards, error class, bytes written -/
 def request (d : Dst) (blob : List Byte) : Resp → Dst × Out × Nat
   | .netErr => (d, .other, 0)
   | .status c => (d, .status c, 0)
-  | .cut k => if k < blob.length then (d.write (blob.take k), .other, k) else (d.write blob, .ok, blob.length)
-  | .full => (d.write blob, .ok, blob.length)
+  | .cut k false => if k < blob.length then (d.write (blob.take k), .other, k) else (d.write blob, .ok, blob.length)
+  | .cut k true => (d.write (blob.take k), .other, (blob.take k).length)
+  | .full _ => (d.write blob, .ok, blob.length)
 
 structure Cfg where
   guarded : Bool := true
